@@ -40,6 +40,7 @@ def bounds(tier, seed):
     return {
         "N": NS[tier] + ([7] if N7[tier] else []),
         "patterns": "all 2^(N(N-1)/2) per N (N=7: Rydberg dim 2 only)",
+        "interaction_values": "pairwise distinct, mixed sign; and for N=3..5, dim 2, every pattern with >= 2 entries again with equal-magnitude alternating-sign values (row sums cancel exactly)",
         "types": ["rydberg", "xy"],
         "dims": [2, 3],
         "transitions_per_pattern": 3,
@@ -53,6 +54,9 @@ def cases(tier, seed):
             for dim in (2, 3):
                 for pat in range(2**npairs):
                     yield {"N": n, "kind": kind, "dim": dim, "pattern": pat, "seed": seed}
+                    if n >= 3 and bin(pat).count("1") >= 2 and n <= 5 and dim == 2:
+                        # equal-magnitude alternating-sign values: the couplings of one atom to several others cancel exactly
+                        yield {"N": n, "kind": kind, "dim": dim, "pattern": pat, "seed": seed, "values": "cancel"}
     if N7[tier]:
         for pat in range(2**21):
             yield {"N": 7, "kind": "rydberg", "dim": 2, "pattern": pat, "seed": seed}
@@ -87,9 +91,12 @@ def run_case(case):
     n, kind, dim, pat, seed = case["N"], case["kind"], case["dim"], case["pattern"], case["seed"]
     uvals, p1, p2, noise3 = _tables(seed, n)
     U = np.zeros((n, n))
+    cancel = case.get("values") == "cancel"
+    live = 0
     for k, (i, j) in enumerate(itertools.combinations(range(n), 2)):
         if pat >> k & 1:
-            U[i, j] = U[j, i] = uvals[k]
+            U[i, j] = U[j, i] = (1.5 if live % 2 == 0 else -1.5) if cancel else uvals[k]
+            live += 1
     htype = HamiltonianType.Rydberg if kind == "rydberg" else HamiltonianType.XY
     noise = noise3[:dim, :dim]
     zero = np.zeros((dim, dim), dtype=complex)
